@@ -158,6 +158,74 @@ def single_world(case):
     return evals, len(answers), known
 
 
+def crowd_case(case):
+    """Many agents (beyond any small-population threshold) at coordinates that are not exactly representable in single
+    precision; exact-position queries (leeway 0), whole-row boxes and removal from the middle."""
+    reset_library()
+    kind, dims = WORLDS[case['world']]
+    n = case['n']
+    model = Core.Model(seed=1)
+    env = model.environment = mk(model, kind, dims, False)
+    cont = kind == 'space'
+    nargs = 2 if kind == 'grid' else 3
+    d3 = list(dims) + [0] * (3 - len(dims))
+    agents, pos = [], []
+    for i in range(n):
+        if cont:
+            p = ((i % 39) * 0.1 + 0.05, (i % 7) * 0.3 + 0.1, 0.0 if d3[2] == 0 else (i % 3) * 0.7)
+        else:
+            p = (i % d3[0], (i // d3[0]) % d3[1], 0 if d3[2] == 0 else (i // (d3[0] * d3[1])) % d3[2])
+        a = Core.Agent(f'c{i}', model)
+        env.add_agent(a, *p[:nargs])
+        agents.append(a)
+        pos.append(p)
+    live = list(range(n))
+    q = 0
+    for rnd in range(2):
+        for i in live:
+            got = env.get_agents_at(pos[i][0], pos[i][1], pos[i][2], 0)
+            exp = [agents[j] for j in live if pos[j] == pos[i]]
+            q += 1
+            if got != exp:
+                raise Violation(f'{n} agents: exact-position query at {pos[i]} (leeway 0)',
+                                expected=[a.id for a in exp], observed=[a.id for a in got])
+        got = env.get_agents_at(0, 0, 0, 10 ** 6)
+        if got != [agents[j] for j in live]:
+            raise Violation(f'{n} agents: all-embracing box is not all agents in joining order')
+        # agents leave from the middle and the front; one re-joins at the end
+        for v in (n // 2, 0):
+            if v in live:
+                env.remove_agent(f'c{v}')
+                live.remove(v)
+        env.add_agent(agents[0], *pos[0][:nargs])
+        live.append(0)
+    return q
+
+
+def replaced_world_case(case):
+    """A model is given a second world: agents of the abandoned world never show up in queries on the new one."""
+    reset_library()
+    model = Core.Model(seed=1)
+    old = model.environment = Envs.GridWorld(model, 4, 3)
+    for i in range(3):
+        old.add_agent(Core.Agent(f'o{i}', model), i, 1)
+    new = Envs.SpaceWorld(model, 4.0, 3.0, 0.0) if case['new'] == 'space' else Envs.GridWorld(model, 4, 3)
+    model.set_environment(new) if case['via'] == 'set' else setattr(model, 'environment', new)
+    if new.get_agents_at(1, 1, 0, 5) != []:
+        raise Violation('a freshly installed, empty world answers with agents of the world it replaced',
+                        expected=[], observed=[a.id for a in new.get_agents_at(1, 1, 0, 5)])
+    a = Core.Agent('n0', model)
+    new.add_agent(a, 1, 1)
+    b = Core.Agent('o1', model)          # same id as an agent of the old world
+    new.add_agent(b, 2, 1)
+    got = new.get_agents_at(1, 1, 0, 1)
+    if got != [a, b]:
+        raise Violation('query on the new world', expected=['n0', 'o1(new)'], observed=[x.id for x in got])
+    if [x.id for x in old.get_agents_at(1, 1, 0, 0)] != ['o1']:
+        raise Violation('query on the abandoned world changed')
+    return 3
+
+
 def single_fn(ctx, case):
     ctx.traces += 1
     ctx.states += 1
@@ -293,6 +361,18 @@ def run(ctx):
     cases = [{'leg': 'single', 'world': wn, 'wrap': wrap, 'full': full} for wn in WORLDS for wrap in (False, True)]
     par.pmap(ctx, single_fn, cases, procs=ctx.procs)
     ctx.leg('single', worlds=len(cases), full_lattice=full)
+    extra = [{'leg': 'crowd', 'world': wn, 'n': n} for wn in ('space4x3x0', 'space4x3x2', 'grid4x3', 'disc4x3x2')
+             for n in ((70,) if not full else (70, 150))]
+    extra += [{'leg': 'replaced_world', 'new': nw, 'via': via} for nw in ('space', 'grid') for via in ('set', 'assign')]
+    for case in extra:
+        if ctx.violations:
+            break
+        ctx.traces += 1
+        try:
+            ctx.transitions += hbfs._guard(crowd_case if case['leg'] == 'crowd' else replaced_world_case, case)
+        except Violation as v:
+            ctx.report(case, v)
+    ctx.leg('crowd_and_replaced_world', cases=len(extra))
     ctx.sample(cases[0])
     if ctx.violations:
         return
@@ -310,7 +390,11 @@ def run(ctx):
 
 
 def replay(case):
-    if case['leg'] == 'single':
+    if case['leg'] == 'crowd':
+        hbfs._guard(crowd_case, case)
+    elif case['leg'] == 'replaced_world':
+        hbfs._guard(replaced_world_case, case)
+    elif case['leg'] == 'single':
         evals, answers, known = hbfs._guard(single_world, case)
         if known is not None:
             raise known
